@@ -25,6 +25,17 @@ EncoderCases ==
          [terms |-> <<Ctl, VTuple(<<WideAtom(255)>>)>>, atoms |-> 1],                     \* 510 bytes, 255 characters
          [terms |-> <<VTuple(<<SmallInt(2), VAtom(<<195, 169>>), VAtom(<<226, 130, 172>>)>>), VMap(<< <<VAtom(<<195, 169>>), LongAtom(256, 99)>> >>)>>, atoms |-> 3] }
 ASSUME IOEnv.MODE # "cases" \/ ndJsonSerialize(IOEnv.OUT, SetToSeq(EncoderCases))
+\* C10 across a distribution header: a node-local identifier inside a frame whose header lists atom references (for other atoms
+\* of the message) must come out of decode_with_atom_cache with its opaque bytes, so that re-encoding gives the bytes received
+LocH == <<9, 8, 7, 6, 5, 4, 3, 2>>
+NodeA == VAtom(<<110, 64, 104>>)
+LocalIds == { VPid(NodeA, <<0,0,0,1>>, <<0,0,0,2>>, <<0,0,0,3>>, LocH), VPort(NodeA, <<0,0,0,0,0,0,0,5>>, <<0,0,0,1>>, LocH),
+              VRef(NodeA, <<0,0,0,1>>, <<<<0,0,0,7>>, <<0,0,0,8>>>>, LocH), VPid(NodeA, <<0,0,0,1>>, <<0,0,0,2>>, <<0,0,0,3>>, <<>>) }
+OneRef == << [seg |-> 0, idx |-> 0, new |-> TRUE, atom |-> <<97, 98, 99>>] >>
+LocalIdCases == { [bytes |-> MsgBytes(refs, <<Ctl, w>>), payload |-> w, payload_enc |-> Encode(w), header_refs |-> Len(refs)] :
+                    refs \in {<<>>, OneRef},
+                    w \in UNION { { VTuple(<<VAtom(<<97, 98, 99>>), i>>), VList(<<i, VAtom(<<97, 98, 99>>)>>, VNil), VMap(<< <<VAtom(<<97, 98, 99>>), i>> >>) } : i \in LocalIds } }
+ASSUME IOEnv.MODE # "cases" \/ ndJsonSerialize(IOEnv.OUT_LOCAL, SetToSeq(LocalIdCases))
 Emit == PrintT(ToJson([from |-> [s |-> sCache, r |-> rCache, n |-> sent], act |-> [bytes |-> last'.bytes, nterms |-> Len(last'.terms)],
                        retA |-> last'.terms, retI |-> last'.resolved, to |-> [s |-> sCache', r |-> rCache', n |-> sent']]))
 =============================================================================
